@@ -8,6 +8,8 @@ CONSTANTS
   Alphabet <- NoOps
   PreOps <- PreTamper
   SibFields <- NoFields
+  SidPairs <- NoSid
   TamperMax = 3
-INVARIANTS TypeOK PRedactedIffMismatch PRedactedNoop PRedactedForm PIntact PIdSigIff PSigsTogether Emit
+INVARIANTS TypeOK PRedactedIffMismatch PRedactedNoop PRedactedForm PIntact PIdSigIff PSigsTogether
+  PSpellingNeutral PCaseIsAnotherKey PDupOneReading PDupGenuineOnly PDupNoReadingHash PDupForgerOnly PDupSummaries Emit
 CHECK_DEADLOCK FALSE
